@@ -29,45 +29,60 @@ FUNCTIONS = [_ST + n for n in ['AVERAGE', 'AVEDEV', 'AVERAGEA', 'AVERAGEIF', 'CO
     ['hotxlfp.formulas.utils:' + n for n in ['iflatten', 'flatten', 'inumbers', 'numbers', 'parse_number',
                                              'iparse_number_array', 'iparse_number_array_aux', 'parse_criteria']] + \
     ['hotxlfp.helper.number:to_number']
-RULE = ('seeded, not exhaustive: 3119 fixed cases + 3016*sc generated ones, sc = 2 quick (10 when scale is 5), 60 thorough '
-        '(9151 / 33279 / 184079 cases). Each generated call is made, by equal draw, as formula text with array literals (lit; '
-        'empty arrays, blanks, error values, floats in exponent notation go into variables), as formula over variables (var: '
-        'lists, blanks, error values, every third argument, floats off the 1/8 grid) or as direct call of the registered '
-        'function (fn). Number lists: n in 1..40 (mostly <= 10) values drawn with repetition from a pool of n/3, n/2, n or '
-        '2n+3 (forced duplicates) integers / dyadic k/8 / 1-2 place decimals, any sign, |v| <= 30 (15% of the pool <= 1000). '
-        '(stat, 8*sc for each of the 27 names of STAT_FNS + 500*sc with the name drawn, 13 common ones twice as likely) the '
-        'list arranged twice - random partition into scalar arguments and arrays nested to depth 3 (var/fn: 5% empty arrays in '
-        'between), the second time after a random permutation (80%, order-free names only, never HARMEAN with an item <= 0): '
-        'textbook value on the first arrangement, same outcome of the two; GEOMEAN/HARMEAN lists made positive 80%, 25% '
-        'replaced by 12/20/30/40 items of large (1e8..1e9, integers and x.5) or tiny (k/2^40, k < 4096) magnitude; PRODUCT of '
-        'more than 12 items keeps |v| <= 30. (large, 250*sc) LARGE(arr,k), arr such a list nested to depth 3, one k drawn from '
-        '1..n, second arrangement shuffled and nested afresh: exactly the k-th largest item, both times. (slope, 200*sc) SLOPE '
-        'on 2n scalar arguments (y first), n in {2,3,4,5,8,12,20}: integer / dyadic lists (70%) or 1-place decimals in '
-        '-20..20, all-equal x broken up 9 times in 10, 30% rescaled by powers of two (x by 2^-17 or 2^-30, y by 1, 2^-10 or '
-        '2^10): the least-squares slope within 1e-12 (integer / dyadic data) or 1e-9 (decimal or rescaled data) of '
-        'max(|slope|,1). (crit, 1400*sc, and 200*sc whose first criterion is replaced by one meant to select nothing: >100000, '
-        '<-100000, =77777.5, 99999, zzz, z*, ?z?*, =5) SUMIF/COUNTIF/AVERAGEIF (2 or 3 arguments) on ranges nested to depth 3, '
-        'SUMIFS/AVERAGEIFS/MAXIFS with 1..3 criteria on flat ranges, all of one length 1..40: numeric ranges (..IFS: 30% the '
-        'value list itself; 30% of the others with a quarter of the cells replaced by words, blanks and ""; SUMIF and '
-        '2-argument AVERAGEIF numbers only), text ranges of words of 0..4 characters over {a,b,c,*,?} (cells containing * and '
-        '?), COUNTIF also mixed word / integer cells; criteria of the three forms: each of the 6 operators + number, bare '
-        'number, wildcard pattern of 1..5 characters over {a,b,c,*,?} or bare word; the number is a cell of the range (70%), '
-        'one of {0,1,-1,2.5,-0.125,10,100000,-100000} or in -30..30, spelled also as +3, 3.0, .5; demanded: sum / count / mean '
-        '/ maximum over exactly the selected items, for an empty selection 0 or (AVERAGEIF(S)) an error. (err, 250*sc) 1 or 2 '
-        'error items among 1,2,3,5 or 9 integer / dyadic numbers under SUM/PRODUCT/AVERAGE/MIN/MAX/MEDIAN - the expression 1/0 '
-        'as a scalar argument (lit) or one of the 8 error values anywhere in the arrangement (var/fn): the result is one of '
-        'the injected errors. (unit, 3103 fixed, model comparison only, no oracle) COUNTIF of one item (29: numbers, logicals, '
-        'blank, 15 texts incl. "", wildcards, number spellings, upper case, newline; 2 errors, a date) x 86 raw criteria '
-        'strings incl. malformed ones, each string also in 5 fixed SUMIFS/MAXIFS/AVERAGEIFS/AVERAGEIF/SUMIF calls, 6 '
-        'non-string criteria x 2 calls, 165 argument-shape / arity / non-numeric-item cases over all modelled functions (all '
-        'direct calls), HARMEAN(0,-1) and HARMEAN(-1,0). 16 fixed oracle cases of the repaired defects (wildcard argument '
-        'order, MAXIFS start value, empty selections, LARGE k against nested arrays, ordering criterion on a text/blank cell, '
-        'nested SUM, 2 err). Compared with the Lean model: the first arrangement of every case, except crit cases (some 4%) '
-        'whose criteria text spells a decimal that is no double unless the call is formula text without variables. search() (a '
-        'proof or the correspondence broke, no oracle failure yet): the thorough stream (sc = 60*scale) on the oracle alone up '
-        'to the first failure; shrink (stat only) flattens both arrangements and drops items while the oracle still fails. No '
-        'time or step budgets, no weight. Non-trivial = the first result is a value (err: an error); every unit case and every '
-        'crit case generated as empty selection counts.')
+RULE = ('seeded, not exhaustive: 3119 fixed cases + 3016*sc generated ones, sc = 2 quick (10 when scale is 5), 60 '
+        'thorough (9151 / 33279 / 184079 cases). Each generated call is made, by equal draw, as formula text with '
+        'array literals (lit; empty arrays, blanks, error values, floats in exponent notation - and any array holding '
+        'one - go into variables), as formula over variables (var: lists, blanks, error values, every third argument, '
+        'floats off the 1/8 grid) or as direct call of the registered function (fn). Number lists: n in 1..40 (mostly '
+        '<= 10; drawn from 1,1,2,2,3,4,5,6,8,10,15,25,40 or uniformly) values drawn with repetition from a pool of '
+        'n/3, n/2, n or 2n+3 (forced duplicates) integers / dyadic k/8 / 1-2 place decimals, any sign, |v| <= 30 (15% '
+        'of the pool <= 1000); three flavours: integers only, integers (40%) and k/8, or 40% integers / 30% k/8 / 30% '
+        'decimals (stat: drawn 1:2:1, elsewhere equally, SLOPE and err lists only the first two). (stat, 8*sc for '
+        'each of the 27 names of STAT_FNS + 500*sc with the name drawn, 13 common ones twice as likely) the list '
+        'arranged twice - random partition into scalar arguments and arrays nested to depth 3 (var/fn: 5% empty '
+        'arrays in between), the second time after a random permutation (80%, order-free names only, never HARMEAN '
+        'with an item <= 0): textbook value on the first arrangement, same outcome of the two; GEOMEAN/HARMEAN lists '
+        'made positive 80%, 25% replaced by 12/20/30/40 items of large (1e8..1e9, integers and x.5) or tiny (k/2^40, '
+        'k < 4096) magnitude; PRODUCT of more than 12 items keeps |v| <= 30 (a larger item is replaced by an integer '
+        'in -9..9). (large, 250*sc) LARGE(arr,k), arr such a list nested to depth 3, one k drawn from 1..n, second '
+        'arrangement shuffled and nested afresh: exactly the k-th largest item, both times. (slope, 200*sc) SLOPE on '
+        '2n scalar arguments (y first), n in {2,3,4,5,8,12,20} (2 twice as likely): integer / dyadic lists (70%) or '
+        '1-place decimals in -20..20, all-equal x broken up 9 times in 10, 30% rescaled by powers of two (x by 2^-17 '
+        'or 2^-30, y by 1, 2^-10 or 2^10): the least-squares slope within 1e-12 (integer / dyadic data) or 1e-9 '
+        '(decimal or rescaled data) of max(|slope|,1). (crit, 1400*sc, and 200*sc whose first criterion is replaced '
+        'by one meant to select nothing: >100000, <-100000, =77777.5, 99999, zzz, or - when the first criteria range '
+        'holds a text cell - zzz, z*, ?z?*, =5; these carry the flag \'empty\') the name drawn with weights SUMIF 1, '
+        'COUNTIF 2, AVERAGEIF 2, SUMIFS 2, AVERAGEIFS 1, MAXIFS 2: SUMIF/COUNTIF/AVERAGEIF (2 or, 60%, 3 arguments) '
+        'on ranges nested to depth 3, SUMIFS/AVERAGEIFS/MAXIFS with 1..3 criteria (weights 2:2:1) on flat ranges, all '
+        'of one length 1..40: numeric ranges (..IFS: 30% the value list itself; 30% of the others with a quarter of '
+        'the cells replaced by words, blanks and ""; SUMIF and 2-argument AVERAGEIF numbers only), text ranges (45% '
+        'under COUNTIF and 3-argument AVERAGEIF, a third of the ..IFS criteria ranges) of words of 0..4 characters '
+        'over {a,b,c,*,?} (cells containing * and ?), COUNTIF also (20%) mixed word / integer (-5..5) cells with a '
+        'pattern / word criterion (60%) or = / <> an integer in -5..5; criteria of the three forms: each of the 6 '
+        'operators + number (80% on numeric ranges), bare number, wildcard pattern of 1..5 characters over '
+        '{a,b,c,*,?} with at least one wildcard (75% on text ranges) or bare word (70% a non-empty wildcard-free cell '
+        'of the range where there is one, else 1..4 letters over {a,b,c}); the number is a cell of the range (70%, '
+        'where it has a number), one of {0,1,-1,2.5,-0.125,10,100000,-100000} or in -30..30, spelled also as +3, 3.0, '
+        '.5; demanded: sum / count / mean / maximum over exactly the selected items, for an empty selection 0 or '
+        '(AVERAGEIF(S)) an error (nothing is demanded when a selected item is no number or the ranges differ in '
+        'length: no generated case). (err, 250*sc) 1 or 2 error items among 1,2,3,5 or 9 integer / dyadic numbers '
+        'under SUM/PRODUCT/AVERAGE/MIN/MAX/MEDIAN - the expression 1/0 as a scalar argument among scalar arguments '
+        '(lit) or one of the 8 error values anywhere in the arrangement (var/fn): the result is one of the injected '
+        'errors. (unit, 3103 fixed, model comparison only, no oracle) COUNTIF of one item (29: numbers, logicals, '
+        'blank, 15 texts incl. "", wildcards, number spellings, upper case, newline; 2 errors, a date) x 86 raw '
+        'criteria strings incl. malformed ones, each string also in 5 fixed SUMIFS/MAXIFS/AVERAGEIFS/AVERAGEIF/SUMIF '
+        'calls, 6 non-string criteria x 2 calls, 165 argument-shape / arity / non-numeric-item cases over all '
+        'modelled functions (all direct calls), HARMEAN(0,-1) and HARMEAN(-1,0) as formula text. 16 fixed oracle '
+        'cases of the repaired defects (wildcard argument order, MAXIFS start value, empty selections, LARGE k '
+        'against nested arrays, ordering criterion on a text/blank cell, nested SUM, 2 err). Compared with the Lean '
+        'model: the first arrangement of every case, except crit cases (some 4%) whose criteria text spells a decimal '
+        'that is no double unless the call is formula text without variables (a case flagged \'nomodel\' would not be '
+        'sent either: none is generated). search() (a proof or the correspondence broke, no oracle failure yet): the '
+        'thorough stream (sc = 60*scale) on the oracle alone up to the first failure; shrink (stat only) flattens '
+        'both arrangements into scalar arguments (a direct call stays one, anything else becomes a lit call) and '
+        'drops items, one at a time from both, while the oracle still fails. No time or step budgets, no weight. '
+        'Non-trivial = the first result is a value (err: an error); every unit case and every crit case generated as '
+        'empty selection (or fixed with the flag \'empty\': 4) counts.')
 TRUSTED = ['CPython statistics / sum / sorted / max / min / fnmatch (modelled by their documented semantics: exact-rational '
            'mean and variance with the int-or-float result type, stable sort, first extreme item, first most frequent item; '
            'fnmatch without [ classes)',
@@ -75,17 +90,21 @@ TRUSTED = ['CPython statistics / sum / sorted / max / min / fnmatch (modelled by
            'in the model, the nearest double in Python): integer model results are compared exactly and by type, float '
            'results within 1e-12 (SLOPE on data that is not integer / dyadic: 1e-9) relative to the largest of the result, '
            'the largest numeric argument and 1 (SLOPE on the formula path: result and 1); sqrt and n-th root results are '
-           'carried symbolically and checked by squaring (1e-13 relative) / powering (1e-9)',
+           'carried symbolically and checked by squaring (1e-13 relative) / powering (1e-9); any other model value (text, '
+           'logical, blank, date, array) is compared by fx.value_matches: exactly (dates to 2 microseconds + 2^-49 relative, '
+           'floats inside arrays to 4 ulp)',
            'oracle tolerances: exact (the rational value or the double nearest to it) for AVERAGE(A), MIN(A), MAX(A), '
            'COUNT(A), MODE, VAR / VAR.S / VAR.P / VARP / VARA and LARGE always, for SUM, MEDIAN and the crit sums / counts / '
            'maxima on integer / dyadic data (floats multiples of 1/8 with |v| <= 4096), for PRODUCT on integers; otherwise '
            '1e-12 relative to the largest of the value, the largest numeric argument and 1 (on the tiny-magnitude HARMEAN '
            'lists that is 1e-12 absolute); STDEV* by the square and GEOMEAN by the n-th power within 1e-9 relative; two '
            'arrangements: exactly equal for the exact names on integer / dyadic data (LARGE always), else within 1e-12 '
-           'likewise',
+           'relative to the largest of the first result, the largest numeric argument and 1 (non-finite floats: the same '
+           'repr; non-numeric values: equal; two non-values: the same code, raised or returned alike)',
            'the yardsticks of the oracle are written by hand: the textbook formulas in Fraction arithmetic, the wildcard '
            'matcher ref_glob (* any run of characters, ? exactly one, anything else itself), crit_number (an integer or the '
-           'double nearest to the decimal)',
+           'double nearest to the decimal), sem (the three forms of criteria; it would read a logical cell as 1 / 0, but '
+           'no case judged by the oracle has one)',
            'int()/float() text parsing beyond ASCII decimal syntax is library behaviour (such text, and text containing ", is '
            'kept out of the model comparison; no generated or fixed case contains any)',
            'logicals among the items are modelled by their integer value; opaque host objects are assumed unordered and '
